@@ -317,6 +317,12 @@ func one(c *eng.Ctx, t int, rng *rand.Rand, mode, dir string) bool {
 			if !g.wait("scheduler.newTorrentEvent", tmo) {
 				return drift("Download: newTorrentEvent not applied")
 			}
+			if !snap.HasControl && cs == "full" {
+				// a dispatcher created on a complete torrent sends its completion notice at once
+				if !g.wait("deferred:scheduler.dispatcherCompleteEvent", tmo) {
+					return drift("Download: no completion notice for a complete torrent")
+				}
+			}
 			ev("Download", "r", r)
 		case "RecvPiece":
 			if peer == nil || peer.isClosed() {
